@@ -19,9 +19,20 @@ impl V {
   }
 }
 
+/// Payload clone = the NON-atomic copy-out of a broadcast (spmc) slot. It is a visible action of the
+/// scheduler shim: a scheduling point precedes the read of the payload, so another thread (the producer) can
+/// run between the consumer's index/sequence loads and the copy, and between two copies of one batch; with
+/// `--atomics` it is logged as `A <tid> clone v<id> - - - -` (id = the payload actually read). Only the spmc
+/// flavours clone payloads.
 impl Clone for V {
   fn clone(&self) -> V {
-    V::new(self.id)
+    loom::rt::sched_point();
+    // read AFTER the scheduling point: an overwritten slot shows the overwriting value
+    let id = unsafe { std::ptr::read_volatile(&self.id) };
+    if loom::rt::tracing() {
+      loom::rt::note("clone", &format!("v{}", id));
+    }
+    V::new(id)
   }
 }
 
